@@ -241,6 +241,34 @@ func (g *Gen) copyBuiltin(v ssa.Value, args []ssa.Value, st *State) *State {
 		srow = fmt.Sprintf("(select %s (s.base %s))", mem, s)
 		soff = fmt.Sprintf("(s.off %s)", s)
 	}
+	// constant-length copies (hashes, keys, fixed records) are unrolled into
+	// ground stores: no quantifier, no matching loops
+	if dl, ok := constSliceLen(args[0]); ok {
+		if sl, ok2 := constSliceLen(args[1]); ok2 {
+			cn := dl
+			if sl < cn {
+				cn = sl
+			}
+			if cn <= 72 {
+				drow0 := fmt.Sprintf("(select %s (s.base %s))", mem, d)
+				row := drow0
+				for i := 0; i < cn; i++ {
+					row = fmt.Sprintf("(store %s (loc (s.off %s) %d) (select %s (loc %s %d)))", row, d, i, srow, soff, i)
+				}
+				if v != nil {
+					if _, used := v.(*ssa.Call); used {
+						g.define(v, fmt.Sprint(cn))
+					}
+				}
+				if cn == 0 {
+					return st
+				}
+				rowc := g.fresh("copy.row", "(Array Int "+g.u.SortOf(et)+")")
+				g.assert(fmt.Sprintf("(= %s %s)", rowc, row))
+				return g.update(st, k, fmt.Sprintf("(store %s (s.base %s) %s)", mem, d, rowc))
+			}
+		}
+	}
 	n := g.fresh("copy.n", "Int")
 	g.assert(fmt.Sprintf("(= %s (ite (<= (s.len %s) %s) (s.len %s) %s))", n, d, slen, d, slen))
 	drow := fmt.Sprintf("(select %s (s.base %s))", mem, d)
@@ -362,4 +390,43 @@ func (g *Gen) send(x *ssa.Send, st *State) *State {
 func (g *Gen) recv(x *ssa.UnOp, st *State) *State {
 	g.fail("NEEDS-MODEL channel receive at %s", g.pos(x))
 	return st
+}
+
+// constSliceLen: statically known length of a slice value (slice expressions
+// with constant bounds over arrays or slices).
+func constSliceLen(v ssa.Value) (int, bool) {
+	sl, ok := v.(*ssa.Slice)
+	if !ok {
+		return 0, false
+	}
+	lo := int64(0)
+	if sl.Low != nil {
+		c, ok := constInt(sl.Low)
+		if !ok || !c.IsInt64() {
+			return 0, false
+		}
+		lo = c.Int64()
+	}
+	var hi int64
+	if sl.High != nil {
+		c, ok := constInt(sl.High)
+		if !ok || !c.IsInt64() {
+			return 0, false
+		}
+		hi = c.Int64()
+	} else {
+		pt, ok := types.Unalias(sl.X.Type()).Underlying().(*types.Pointer)
+		if !ok {
+			return 0, false
+		}
+		at, ok := types.Unalias(pt.Elem()).Underlying().(*types.Array)
+		if !ok {
+			return 0, false
+		}
+		hi = at.Len()
+	}
+	if hi < lo || hi-lo > 1<<20 {
+		return 0, false
+	}
+	return int(hi - lo), true
 }
